@@ -137,7 +137,7 @@ func (e *env) history(user string) []string {
 			done = append(done, "append")
 		case 1:
 			c.Cmd("SELECT INBOX")
-			c.Cmd("UID COPY 1:* INBOX")
+			c.Cmd("UID COPY 1:2 INBOX") // UIDs 1 and 2 if still there: the copies take fresh UIDs at the top
 			done = append(done, "uidcopy-into-inbox")
 		case 2:
 			c.Cmd("SELECT INBOX")
@@ -202,8 +202,10 @@ func (e *env) play(t txCase) {
 	rcpts := append([]string(nil), t.rcpts...)
 	for i, r := range rcpts {
 		if r == "NEW" {
+			// every store stays open in the DBManager for the life of the process (about twenty descriptors each): at most
+			// 150 distinct new users per run, later ones are the earlier ones again
 			e.nNew++
-			rcpts[i] = fmt.Sprintf("fresh%dx%d@example.com", e.o.Seed, e.nNew)
+			rcpts[i] = fmt.Sprintf("fresh%dx%d@example.com", e.o.Seed, e.nNew%150)
 		}
 	}
 	folder := []string{"INBOX", "Filed", fmt.Sprintf("Fresh%d", txSeq)}[t.folder%3]
